@@ -16,9 +16,15 @@ class PipeStdin:
     producer is 'slow': it writes the next chunk only once the pipe has been
     drained, so a consumer that bypasses the buffered reader sees short reads."""
 
-    def __init__(self, data, rng, max_chunk=7, lockstep=True, feeder="thread"):
+    def __init__(self, data, rng, max_chunk=7, lockstep=True, feeder="thread", header=None):
         r, w = os.pipe()
         self.pid = None
+        self.header = header
+        if header is not None:
+            # a one-line text header precedes the audio (a common pipe protocol); the application reads it through the buffered
+            # layer - which reads AHEAD - and then hands standard input to the library
+            data = header + data
+            max_chunk, lockstep = 8192, False
         self.buffer = io.BufferedReader(io.FileIO(r, "rb", closefd=True))
         self._stop = False
         chunks = []
@@ -75,6 +81,11 @@ class PipeStdin:
             return
         self.thread = threading.Thread(target=feed, daemon=True, name="vf-stdin-feeder")
         self.thread.start()
+
+    def consume_header(self):
+        """what the application does before the library sees standard input"""
+        line = self.buffer.readline()
+        assert line == self.header, (line, self.header)
 
     def fileno(self):
         """like the real sys.stdin: code that goes to the descriptor itself reads the same pipe"""
